@@ -220,13 +220,15 @@ func checkDefs() map[string]CheckDef {
 		Obligations: []Obligation{
 			{Pkg: "internal/verifh/c08", Harness: "VerifC08Validation", TV: 10},
 			{Pkg: "internal/verifh/c08", Harness: "VerifC08Agreement", Quick: map[string]int{"c08full": 0}, Thor: map[string]int{"c08full": 1}, TV: 6},
+			{Pkg: "internal/verifh/c08", Harness: "VerifC08Opening", TV: 6, Note: "the whole two-party opening protocol between two real clients, deterministic schedule"},
+			{Pkg: "internal/verifh/c08", Harness: "VerifC08Opening", Sched: true, Quick: map[string]int{"P": 0, "D": 1, "race": 1}, Thor: map[string]int{"D": 2}, Note: "delay-bounded schedule exploration (every Publish is a schedule point), happens-before race detection"},
 		},
 		Assumptions: append(append([]string{}, clientAssume...),
 			"reference validity predicate: DESIGN.md Appendix A.4",
 			"SHA3-256 (nonce derivation) and SHA-256 (channel ID) are ideal: equal digests iff equal input streams",
 			"quick tier: nonce digests without a leading zero byte in the two ID-dependence experiments (the thorough tier explores every digest length 0..32)"),
-		BoundsText: "validation: a client with or without an open ledger channel to the sender (symbolic balances, optionally locked funds); ledger, sub-channel and virtual channel proposals built well-formed with symbolic leaves and exactly one of 24 deviations (participants, challenge duration, allocation shape/validity/locked, funding agreement, peers vs sender/receiver, parent id, assets, funds vs parent, parents list and index maps of every wrong length, entries out of range); the proposal handler must be invoked only for proposals the reference accepts, never panic, and leave the parent's mutex free; agreement: completeCPP's parameter derivation on both sides' clients for ledger and virtual proposals with symbolic nonce shares, proposal IDs and challenge durations; the ID changes iff the proposer's / the responder's share changes; accept messages of the wrong type or proposal ID are refused",
-		Outside:    []string{"the two-party opening protocol under all network schedules (initial signature exchange over a live bus): only the deterministic derivation and validation steps are encoded", "more than two participants", "apps other than NoApp in proposals"},
+		BoundsText: "validation: a client with or without an open ledger channel to the sender (symbolic balances, optionally locked funds); ledger, sub-channel and virtual channel proposals built well-formed with symbolic leaves and exactly one of 24 deviations (participants, challenge duration, allocation shape/validity/locked, funding agreement, peers vs sender/receiver, parent id, assets, funds vs parent, parents list and index maps of every wrong length, entries out of range); the proposal handler must be invoked only for proposals the reference accepts, never panic, and leave the parent's mutex free; agreement: completeCPP's parameter derivation on both sides' clients for ledger and virtual proposals with symbolic nonce shares, proposal IDs and challenge durations; the ID changes iff the proposer's / the responder's share changes; accept messages of the wrong type or proposal ID are refused; opening: two real clients on an in-harness bus run ProposeChannel / Accept (or Reject) for a ledger channel with symbolic balances, nonce shares and challenge duration: both obtain channels with the same ID, parameters, participant order and the proposed version-0 state fully signed, in phase Acting; explored under the deterministic schedule and under every schedule with up to D deviations (D=1 quick, 2 thorough) from the Go-like default (runnext) at blocking points and at every Publish",
+		Outside:    []string{"schedules beyond the delay bound", "message loss on the bus", "sub-channel and virtual channel openings between live clients (their validation and derivation steps are covered)", "more than two participants", "apps other than NoApp in proposals"},
 	})
 	add(CheckDef{
 		ID: "C07",
@@ -234,13 +236,14 @@ func checkDefs() map[string]CheckDef {
 			{Pkg: "internal/verifh/c07", Harness: "VerifC07Update", Quick: map[string]int{"maxLocked": 1, "phases": 2}, Thor: map[string]int{"maxLocked": 2, "phases": 4}, TV: 10},
 			{Pkg: "internal/verifh/c07", Harness: "VerifC07SubFunding", TV: 10},
 			{Pkg: "internal/verifh/c07", Harness: "VerifC07SubSettlement", TV: 10},
-			{Pkg: "internal/verifh/c12", Harness: "VerifVirtualFunding", TV: 6},
-			{Pkg: "internal/verifh/c12", Harness: "VerifVirtualSettlement", Quick: map[string]int{"bKinds": 2}, Thor: map[string]int{"bKinds": 3}, TV: 6},
+			{Pkg: "internal/verifh/c07", Harness: "VerifC07SubFinal", TV: 6, Note: "settlement interceptor installed by the real acceptUpdate of the peer's final sub-channel update"},
+			{Pkg: "internal/verifh/c12", Harness: "VerifVirtualFunding", Quick: map[string]int{"devmask": 6951}, Thor: map[string]int{"devmask": -1}, TV: 3, Note: "quick: deviations 0,1,2,5,8,9,11,12 (the others run in C12's quick tier); thorough: all"},
+			{Pkg: "internal/verifh/c12", Harness: "VerifVirtualSettlement", Quick: map[string]int{"bKinds": 2, "devmask": 435}, Thor: map[string]int{"bKinds": 3, "devmask": -1}, TV: 3, Note: "quick: deviations 0,1,4,5,7,8; thorough: all"},
 		},
 		Assumptions: append(append([]string{}, clientAssume...),
 			"the independent acceptability predicates are written from the property text in the harness (c07.go acceptable/successor, sub.go, c12/virtual.go fundingRef/settlementRef); the wire-level sender is not part of them (the property identifies the sender by the signature)",
 			"the user's update handler accepts or rejects nondeterministically; 'countersigned' is observed as a ChannelUpdateAcc on the bus carrying the client's signature"),
-		BoundsText: "ordinary updates: channel in phase Acting/Final (thorough: +Registered/Funding) with symbolic balances, version and 0..1 (2) locked sub-allocations with empty/[0,1]/[1,0] index maps; candidate = arbitrary balances + one of 12 structural deviations (version, id, final flag, locked amount / index map / identity edited, sub-allocation removed / added / reordered, other asset, balance column more/fewer); signature = peer over candidate / over a state differing in one balance / over the current state / stranger over candidate / garbage; actor index arbitrary 16 bit; sub-channel funding and settlement interceptors: registered as completeCPP / acceptUpdate do, candidate with arbitrary debits/credits and 7 / 6 deviations of the locked list; virtual channel funding (14 deviations) and settlement (11 deviations) proposals sent by one party with the other party's matching, different or missing proposal, both arrival orders",
+		BoundsText: "ordinary updates: channel in phase Acting/Final (thorough: +Registered/Funding) with symbolic balances, version and 0..1 (2) locked sub-allocations with empty/[0,1]/[1,0] index maps; candidate = arbitrary balances + one of 12 structural deviations (version, id, final flag, locked amount / index map / identity edited, sub-allocation removed / added / reordered, other asset, balance column more/fewer); signature = peer over candidate / over a state differing in one balance / over the current state / stranger over candidate / garbage; actor index arbitrary 16 bit; sub-channel funding and settlement interceptors: registered as completeCPP / acceptUpdate do (funding optionally after an intermediate accepted payment on the parent; settlement also through the real acceptUpdate of the peer's final sub-channel update with an arbitrary outcome), candidate with arbitrary debits/credits and 7 / 6 deviations of the locked list; virtual channel funding (14 deviations) and settlement (11 deviations) proposals sent by one party with the other party's matching, different or missing proposal, both arrival orders",
 		Outside:    []string{"apps with their own transition rules (covered at machine level by C02)", "more than two participants / one asset", "preemptive schedules inside the handlers"},
 	})
 	add(CheckDef{
@@ -249,8 +252,8 @@ func checkDefs() map[string]CheckDef {
 			{Pkg: "internal/verifh/c12", Harness: "VerifC12Sync", Quick: map[string]int{"phases": 2}, Thor: map[string]int{"phases": 5}, TV: 10},
 			{Pkg: "internal/verifh/c12", Harness: "VerifC12Update", Quick: map[string]int{"phases": 2}, Thor: map[string]int{"phases": 5}, TV: 10},
 			{Pkg: "internal/verifh/c08", Harness: "VerifC08Validation", TV: 6, Note: "proposal messages: no panic, parent channel not left locked"},
-			{Pkg: "internal/verifh/c12", Harness: "VerifVirtualFunding", TV: 6},
-			{Pkg: "internal/verifh/c12", Harness: "VerifVirtualSettlement", Quick: map[string]int{"bKinds": 2}, Thor: map[string]int{"bKinds": 3}, TV: 6},
+			{Pkg: "internal/verifh/c12", Harness: "VerifVirtualFunding", Quick: map[string]int{"devmask": 9437}, Thor: map[string]int{"devmask": -1}, TV: 3, Note: "quick: deviations 0,2,3,4,6,7,10,13 (the others run in C07's quick tier); thorough: all"},
+			{Pkg: "internal/verifh/c12", Harness: "VerifVirtualSettlement", Quick: map[string]int{"bKinds": 2, "devmask": 1613}, Thor: map[string]int{"bKinds": 3, "devmask": -1}, TV: 3, Note: "quick: deviations 0,2,3,6,9,10; thorough: all"},
 		},
 		Assumptions: append(append([]string{}, clientAssume...),
 			"'decodes successfully' is modelled by building message values directly within what the decoders can deliver (C13/C14 cover the decoders): states that fail State.Valid are only sent with garbage signatures; parameters have at least two participants; no nil sub-messages",
@@ -258,6 +261,21 @@ func checkDefs() map[string]CheckDef {
 			"an unrecovered panic in any goroutine is a violation (natively: the test binary dies with 'panic:')"),
 		BoundsText: "sync messages (4 shapes incl. the decodable empty transaction), update messages (9 deviations x 4 signature kinds x arbitrary actor index, from the peer or a stranger), all proposal kinds with 24 deviations (shared with C08), virtual channel funding (14 deviations) and settlement (11 deviations) proposals incl. more/fewer signatures than participants, index maps of wrong length or with entries out of range, unallocated or already allocated channels, with/without the second party's proposal in both arrival orders and with timeouts; channel in phases Acting/Signing (thorough: +Final/Registered/Funding)",
 		Outside:    []string{"sequences of more than two adversarial messages per run (each handler is checked from an arbitrary channel state instead)", "proposal responses and update responses arriving outside a protocol run (they are consumed by wire receivers created per request; not encoded)", "preemptive schedules inside the handlers"},
+	})
+	add(CheckDef{
+		ID: "C06",
+		Obligations: []Obligation{
+			{Pkg: "internal/verifh/c06", Harness: "VerifC06Sequential", Quick: map[string]int{"n": 2}, Thor: map[string]int{"n": 3}, TV: 6},
+			{Pkg: "internal/verifh/c06", Harness: "VerifC06Concurrent", TV: 6, Note: "deterministic run-to-block schedule"},
+			{Pkg: "internal/verifh/c06", Harness: "VerifC06Concurrent", Sched: true, Quick: map[string]int{"P": 0, "D": 1, "race": 1}, Thor: map[string]int{"D": 2}, Note: "delay-bounded schedule exploration: every schedule that deviates from the default choice at up to D scheduling decisions (blocking points), happens-before race detection"},
+		},
+		Assumptions: append(append([]string{}, clientAssume...),
+			"two real clients (request loops Client.Handle, relays, receivers, channel connections, machines) on one in-harness bus that hands an envelope synchronously to the recipient's relay (per-connection order preserved, no loss)",
+			"both clients hold the same channel(s) in phase Acting with an arbitrary fully signed current state; updates are payments of a symbolic amount from the proposer; the responder's handler accepts or rejects by a symbolic decision",
+			"timeouts (5 s proposer, 2 s responder) fire on the virtual clock only when nothing else can run; runs with a timed-out request are only checked for the fully-signed invariant, as the property states",
+			"'at every moment' is checked at quiescence (after each protocol run) and not between individual machine steps"),
+		BoundsText: "sequential: programs of n proposals (n=2 quick, 3 thorough), each by either party, each accepted or rejected; after every run both parties hold the reference state (proposed state on success, unchanged on rejection), fully signed, phase Acting, machine mutex free; success iff the peer's handler accepted, refusal is a PeerRejectedError; concurrent: both parties propose at the same time on one channel or on two channels of the same pair; without timeouts both hold the same state whose version is initial + number of successes and equals the last successful proposal; always: current transactions fully signed",
+		Outside:    []string{"message loss and reordering on the bus", "more than two concurrent proposals", "the state between individual steps of a protocol run (only quiescent points are compared)", "schedules beyond the delay bound"},
 	})
 	return defs
 }
